@@ -144,7 +144,8 @@ class C06(Check):
     def sample(self, m, name, outcome):
         if m._check() != z3.sat: return None
         mdl = m.model_dict(m.solver.model())
-        return {"position": name, "name": NAMES[mdl.get("name", 0)], "outcome": outcome}
+        n = NAMES[mdl.get("name", 0)]
+        return {"position": name, "name": n, "outcome": outcome, "text": POSITIONS[m.ctx["pos"]][1].format(n=n)}
 
     def case(self, kind, detail, model):
         pi = model["_ctx"]["pos"]
@@ -166,7 +167,12 @@ class C06(Check):
         return False, "", "name preserved natively"
 
     def validate(self, runner, sample):
-        return "skip"
+        """the interpreted parser and the native one must agree on accept / reject for the sampled name"""
+        r = runner.call({"op": "parse_any", "kind": "program", "text": sample["text"]})
+        nat_ok = "ok" in r
+        if nat_ok != (sample["outcome"] != "Err"):
+            return f"accept/reject differs on {sample['text']!r}: native {'Ok' if nat_ok else r} mirsym {sample['outcome']}"
+        return None
 
     def canary(self, runner, tier):
         ok, role, text = self.confirm(runner, {"pos": 0, "name": "Theta", "text": "DECLARE theta BIT[2]", "kind": "name-preserved"})
